@@ -71,6 +71,9 @@ def exc_spec(draw, allow_chain=True):
         args = draw(st.one_of(st.tuples(st.integers(1, 40), st.text(max_size=6)).map(list), st.lists(ARG, max_size=1)))
     else:
         args = draw(st.lists(ARG, max_size=3))
+    if args and draw(st.integers(0, 9)) == 0:
+        # a long message (built, not drawn character by character) makes the formatted traceback several kB long
+        args[0] = draw(st.sampled_from(['ab', 'x', 'long line\n'])) * draw(st.sampled_from([400, 2500]))
     spec = {'cls': cls, 'args': args, 'depth': draw(st.one_of(st.integers(1, 6), st.integers(1, 6), st.sampled_from([20, 45]))), 'chain': None}
     if allow_chain and draw(st.integers(0, 3)) == 0:
         spec['chain'] = {'kind': draw(st.sampled_from(['cause', 'context', 'from_none'])), 'inner': draw(exc_spec(allow_chain=False))}
